@@ -151,6 +151,31 @@ pub fn draw(rng: &mut Rng, src: &[u8], donors: &[Vec<u8>]) -> Mutation {
         if rng.chance(1, 12) {
             return Mutation::PadLine { line: rng.below(nlines), width: *rng.pick(&[150usize, 170, 200, 239, 240, 241, 300, 500]), lead: *rng.pick(&[0usize, 0, 0, 150, 200, 400]), multibyte: rng.chance(1, 2) };
         }
+        if !sig.is_empty() && rng.chance(1, 14) {
+            // a lexically degenerate sibling of a literal: a radix prefix with
+            // no digits, digits that are only separators, a string that ends
+            // in a backslash or holds an escaped quote (no magnitudes here)
+            let nums: Vec<usize> = sig.iter().copied().filter(|i| toks[*i].first().map(|b| b.is_ascii_digit()).unwrap_or(false)).collect();
+            let strs: Vec<usize> = sig.iter().copied().filter(|i| is_string(toks[*i])).collect();
+            if !strs.is_empty() && (nums.is_empty() || rng.chance(1, 3)) {
+                let at = *rng.pick(&strs);
+                let inner = String::from_utf8_lossy(&toks[at][1..toks[at].len().saturating_sub(1).max(1)]).to_string();
+                let text = match rng.below(6) {
+                    0 => "\"\"".to_string(),
+                    1 => format!("\"{}\\\\\"", inner),
+                    2 => format!("\"{}\\\"\"", inner),
+                    3 => format!("\"\\\"{}\"", inner),
+                    4 => format!("\"{}\\\"", inner),
+                    _ => format!("\"{}\\n\"", inner),
+                };
+                return Mutation::Transplant { at, text };
+            }
+            if !nums.is_empty() {
+                let at = *rng.pick(&nums);
+                let text = rng.pick(&["0x", "0x_", "0b_", "0b__", "0o_", "0b", "0o", "1_", "0x1_", "1__0", "0x_1", "0b2", "0o8", "0xg", "1x", "00", "0_0"]).to_string();
+                return Mutation::Transplant { at, text };
+            }
+        }
         if !donors.is_empty() && rng.chance(1, 5) {
             let d = rng.pick(donors);
             let dl: Vec<&[u8]> = d.split_inclusive(|b| *b == b'\n').collect();
